@@ -389,15 +389,35 @@ def b_items(I, inst, args, kwargs):
 # cexprtk model: a symbol table is two dictionaries; an expression evaluates to an opaque value that
 # records the expression text and the variable bindings at the moment of evaluation
 
+# exprtk names that a symbol table refuses (cexprtk contract, confirmed against the installed library):
+#   functions[n] = f : KeyError when a variable or a constant is called n; ReservedFunctionShadowException (a
+#                      NameShadowException) when n is a built-in exprtk function
+#   variables[n] = v : KeyError when a function or a constant is called n
+EXPRTK_CONSTANTS = ("pi", "epsilon", "inf")
+EXPRTK_BUILTINS = ("abs", "acos", "acosh", "asin", "asinh", "atan", "atan2", "atanh", "avg", "ceil", "clamp", "cos", "cosh", "cot", "csc",
+                   "erf", "erfc", "exp", "expm1", "floor", "frac", "hypot", "iclamp", "inrange", "log", "log10", "log1p", "log2", "logn",
+                   "max", "min", "mul", "ncdf", "pow", "root", "round", "roundn", "sec", "sgn", "sin", "sinc", "sinh", "sqrt", "sum",
+                   "swap", "tan", "tanh", "trunc", "if", "and", "or", "not", "mod")
+
+
 class Store(object):
-    def __init__(self, log, kind):
+    def __init__(self, log, kind, table=None):
         self.d = {}
         self.log = log
         self.kind = kind
+        self.table = table
 
     def setitem(self, I, idx, val):
-        self.d[_s(idx)] = val
-        self.log.append((self.kind, _s(idx), val))
+        name = _s(idx)
+        t = self.table
+        if t is not None:
+            other = t.functions if self.kind == "var" else t.variables
+            if name in other.d or (getattr(t, "add_constants", False) and name in EXPRTK_CONSTANTS):
+                raise RaiseSignal(ExcV(ExtV("builtins.KeyError"), [Const("name %s is already taken in the symbol table" % name)]), None)
+            if self.kind == "func" and name in EXPRTK_BUILTINS:
+                raise RaiseSignal(cfg_exc_cexprtk("ReservedFunctionShadowException"), None)
+        self.d[name] = val
+        self.log.append((self.kind, name, val))
 
     def getitem(self, I, idx):
         return self.d[_s(idx)]
@@ -409,8 +429,9 @@ class Store(object):
 class SymbolTable(object):
     def __init__(self):
         self.log = []
-        self.variables = Store(self.log, "var")
-        self.functions = Store(self.log, "func")
+        self.variables = Store(self.log, "var", self)
+        self.functions = Store(self.log, "func", self)
+        self.add_constants = False
 
     def get_variables(self, I):
         return PyObjV(self.variables)
@@ -438,13 +459,14 @@ def install_cexprtk(I):
         st = SymbolTable()
         if len(args) > 1 or set(kwargs) - {"add_constants"}:
             raise AnalysisError("cexprtk.Symbol_Table model: constants/functions arguments")
+        ac = kwargs.get("add_constants")
+        st.add_constants = bool(isinstance(ac, Const) and ac.v is True)
         if args:
             v = args[0]
             if not isinstance(v, DictV):
                 raise AnalysisError("cexprtk.Symbol_Table model: variables %r" % (v,))
             for k, val in v.items.values():
                 st.variables.setitem(I, k, val)
-        st.add_constants = kwargs.get("add_constants")
         return PyObjV(st)
 
     def expression(args, kwargs, node, env):
@@ -452,3 +474,8 @@ def install_cexprtk(I):
             if False else PyObjV(Expression(_s(args[0]) if isinstance(args[0], Const) else repr(args[0]), args[1].obj))
     I.x_cexprtk_Symbol_Table = symtab
     I.x_cexprtk_Expression = expression
+
+
+def cfg_exc_cexprtk(name):
+    """an exception of cexprtk._exceptions (NameShadowException family)"""
+    return ExcV(ExtV("cexprtk._exceptions." + name), [Const(name)])
